@@ -20,7 +20,7 @@ type VerifDomainSpec struct {
 	Data       []byte
 }
 
-var verifReaderData map[uint16][]byte
+var verifReaderData = map[*DB]map[uint16][]byte{}
 
 type verifDataReader struct{ data []byte }
 
@@ -38,7 +38,7 @@ func (r *verifDataReader) ReadAt(p []byte, off int64) (int, error) {
 func (r *verifDataReader) Close() error { return nil }
 
 func verifNewReader(db *DB, _ context.Context, ptr pointer) (*Reader, error) {
-	file := verifReaderData[ptr.fileKey]
+	file := verifReaderData[db][ptr.fileKey]
 	lo, hi := int(ptr.offset), int(ptr.offset)+int(ptr.size)
 	if lo > len(file) {
 		lo = len(file)
@@ -52,17 +52,30 @@ func verifNewReader(db *DB, _ context.Context, ptr pointer) (*Reader, error) {
 // VerifBuildDB builds a DB holding exactly the given domains (sorted, disjoint, non-empty data). Under the engine
 // it is an index plus in-memory readers; natively it is a real DB on an in-memory file system filled through real
 // writers.
-func VerifBuildDB(specs []VerifDomainSpec) *DB {
+func VerifBuildDB(specs []VerifDomainSpec) *DB { return VerifBuildDBInOrder(specs, nil) }
+
+// VerifBuildDBInOrder writes the domains in the given order (a permutation of 0..len(specs)-1; nil = as listed).
+// Under the engine every domain goes through the real index.insert, so out-of-order histories exercise the
+// index's search and insertion code; natively the writers are opened in that order.
+func VerifBuildDBInOrder(specs []VerifDomainSpec, order []int) *DB {
+	if order == nil {
+		for i := range specs {
+			order = append(order, i)
+		}
+	}
+	ctx := context.Background()
 	if verifSymbolic() {
 		idx := &index{totalSize: &atomic.Int64{}}
-		verifReaderData = map[uint16][]byte{}
-		for i, s := range specs {
-			fk := uint16(i + 1)
-			idx.mu.pointers = append(idx.mu.pointers, pointer{TimeRange: telem.TimeRange{Start: s.Start, End: s.End}, fileKey: fk, size: uint32(len(s.Data))})
-			verifReaderData[fk] = s.Data
-			idx.totalSize.Add(int64(len(s.Data)))
-		}
 		db, _ := verifDB(idx)
+		verifReaderData[db] = map[uint16][]byte{}
+		for _, i := range order {
+			s := specs[i]
+			fk := uint16(i + 1)
+			verifReaderData[db][fk] = s.Data
+			if err := idx.insert(ctx, pointer{TimeRange: telem.TimeRange{Start: s.Start, End: s.End}, fileKey: fk, size: uint32(len(s.Data))}, false); err != nil {
+				panic(err)
+			}
+		}
 		return db
 	}
 	db, err := Open(Config{FS: xfs.NewMem()})
@@ -70,8 +83,8 @@ func VerifBuildDB(specs []VerifDomainSpec) *DB {
 		panic(err)
 	}
 	no := false
-	ctx := context.Background()
-	for _, s := range specs {
+	for _, i := range order {
+		s := specs[i]
 		w, err := db.OpenWriter(ctx, WriterConfig{Start: s.Start, EnableAutoCommit: &no})
 		if err != nil {
 			panic(err)
